@@ -15,8 +15,25 @@ class A:
         self.k = k
 
 
+def native(f, *args):
+    """Run f natively (outside CrossHair's tracer).  Only for operations whose operands
+    are concrete by construction: CrossHair replaces repr()/str() of containers holding
+    foreign objects by an unconstrained symbolic string, which says nothing about the
+    library."""
+    try:
+        from crosshair.tracers import NoTracing, is_tracing
+
+        if is_tracing():
+            with NoTracing():
+                return f(*args)
+    except ImportError:
+        pass
+    return f(*args)
+
+
 class Op:
-    def __init__(self, name, fn, ref=None, v=False, w=False, i=False, j=False, k=False, mut=True):
+    def __init__(self, name, fn, ref=None, v=False, w=False, i=False, j=False, k=False, mut=True, concrete=False):
+        self.concrete = concrete  # harness must use concrete leaves for this op
         self.name = name
         self.fn = fn
         self.ref = ref or fn
@@ -113,8 +130,8 @@ DICT_READERS = [
     Op("keys", lambda t, a: list(t.keys()), mut=False),
     Op("values", lambda t, a: list(t.values()), mut=False),
     Op("items", lambda t, a: [list(kv) for kv in t.items()], mut=False),
-    Op("repr", lambda t, a: repr(t), mut=False),
-    Op("str", lambda t, a: str(t), mut=False),
+    Op("repr", lambda t, a: native(repr, t), mut=False, concrete=True),
+    Op("str", lambda t, a: native(str, t), mut=False, concrete=True),
     Op("bool", lambda t, a: bool(t), mut=False),
 ]
 
@@ -134,8 +151,8 @@ LIST_READERS = [
     Op("le_plain", lambda t, a: t <= a.v, v=True, mut=False),
     Op("gt_plain", lambda t, a: t > a.v, v=True, mut=False),
     Op("ge_plain", lambda t, a: t >= a.v, v=True, mut=False),
-    Op("repr", lambda t, a: repr(t), mut=False),
-    Op("str", lambda t, a: str(t), mut=False),
+    Op("repr", lambda t, a: native(repr, t), mut=False, concrete=True),
+    Op("str", lambda t, a: native(str, t), mut=False, concrete=True),
     Op("bool", lambda t, a: bool(t), mut=False),
 ]
 
